@@ -21,7 +21,7 @@ CREATE TABLE IF NOT EXISTS workflow_signals (
     signal_name TEXT NOT NULL,
     signal_data TEXT DEFAULT '{}',
     consumed INTEGER DEFAULT 0,
-    created_at TEXT DEFAULT (datetime('now', 'utc')),
+    created_at TEXT DEFAULT (datetime('now')),
     consumed_at TEXT
 );
 
